@@ -36,6 +36,7 @@ type Term struct {
 	// for quantifiers: Op=="forall"/"exists", Bound holds the variables, Args[0] the body
 	Bound []*Term
 	Pat   []*Term // optional :pattern terms
+	Alts  [][]*Term // optional alternative multi-patterns given in the contract (`forall i, q {A[32*i+q]} {f(i)[q]} :: ...`)
 }
 
 func Num(n int64) *Term        { return &Term{Op: "num", S: SInt, Num: big.NewInt(n)} }
@@ -465,10 +466,26 @@ func (t *Term) Subst(m map[string]*Term) *Term {
 		}
 		pats = append(pats, q)
 	}
+	var alts [][]*Term
+	for _, alt := range t.Alts {
+		var na []*Term
+		for _, p := range alt {
+			q := p.Subst(mm)
+			if q != p {
+				changed = true
+			}
+			na = append(na, q)
+		}
+		alts = append(alts, na)
+	}
 	if !changed {
 		return t
 	}
-	return rebuild(t, args, pats)
+	r := rebuild(t, args, pats)
+	if len(alts) > 0 && (r.Op == "forall" || r.Op == "exists") {
+		r = &Term{Op: r.Op, S: r.S, Args: r.Args, Bound: r.Bound, Pat: r.Pat, Alts: alts, Num: r.Num}
+	}
+	return r
 }
 
 func rebuild(t *Term, args []*Term, pats []*Term) *Term {
@@ -512,7 +529,7 @@ func rebuild(t *Term, args []*Term, pats []*Term) *Term {
 	case "select":
 		return Select(args[0], args[1])
 	}
-	return &Term{Op: t.Op, S: t.S, Args: args, Bound: t.Bound, Pat: pats, Num: t.Num}
+	return &Term{Op: t.Op, S: t.S, Args: args, Bound: t.Bound, Pat: pats, Alts: t.Alts, Num: t.Num}
 }
 
 // FreeSyms collects free symbols (0-ary non-numeral leaves and applied function heads that are
@@ -558,6 +575,11 @@ func (t *Term) collectSyms(bound map[string]bool, out map[string]symInfo) {
 	}
 	for _, p := range t.Pat {
 		p.collectSyms(bound, out)
+	}
+	for _, alt := range t.Alts {
+		for _, p := range alt {
+			p.collectSyms(bound, out)
+		}
 	}
 }
 
@@ -614,7 +636,9 @@ func (t *Term) write(sb *strings.Builder) {
 		}
 		sb.WriteString(") ")
 		var alts [][]*Term
-		if len(t.Pat) > 0 {
+		if len(t.Alts) > 0 {
+			alts = t.Alts
+		} else if len(t.Pat) > 0 {
 			alts = [][]*Term{t.Pat}
 		} else if t.Op == "forall" && explicitTriggers {
 			alts = inferAltPatterns(t)
@@ -939,7 +963,7 @@ func stripVariants(t *Term) *Term {
 		if len(t.Args) == 1 {
 			b := stripVariants(t.Args[0])
 			if b != t.Args[0] {
-				return &Term{Op: "forall", S: SBool, Bound: t.Bound, Args: []*Term{b}, Pat: t.Pat}
+				return &Term{Op: "forall", S: SBool, Bound: t.Bound, Args: []*Term{b}, Pat: t.Pat, Alts: t.Alts}
 			}
 		}
 	}
@@ -1039,4 +1063,68 @@ func inferAltPatterns(q *Term) [][]*Term {
 		}
 	}
 	return out
+}
+
+// stripNegVariants: in a HYPOTHESIS, re-indexed variants help wherever the formula is assumed, but in the positions
+// the solver has to PROVE before it can use the hypothesis (premises of implications, negated sub-formulas) they only
+// double the work; they are dropped there (sound: a variant is equivalent to the clause it restates, so `H && H'`
+// and `H` are the same premise).
+func stripNegVariants(t *Term, assumed bool) *Term {
+	switch t.Op {
+	case "and", "or":
+		var keep []*Term
+		changed := false
+		for _, a := range t.Args {
+			if t.Op == "and" && !assumed {
+				variantMu.Lock()
+				v := variantTerm[a]
+				variantMu.Unlock()
+				if v {
+					changed = true
+					continue
+				}
+			}
+			b := stripNegVariants(a, assumed)
+			if b != a {
+				changed = true
+			}
+			keep = append(keep, b)
+		}
+		if !changed {
+			return t
+		}
+		if t.Op == "and" {
+			return And(keep...)
+		}
+		return Or(keep...)
+	case "=>":
+		if len(t.Args) == 2 {
+			a := stripNegVariants(t.Args[0], !assumed)
+			b := stripNegVariants(t.Args[1], assumed)
+			if a != t.Args[0] || b != t.Args[1] {
+				return Implies(a, b)
+			}
+		}
+	case "not":
+		if len(t.Args) == 1 {
+			a := stripNegVariants(t.Args[0], !assumed)
+			if a != t.Args[0] {
+				return Not(a)
+			}
+		}
+	case "forall", "exists":
+		if len(t.Args) == 1 {
+			b := stripNegVariants(t.Args[0], assumed)
+			if b != t.Args[0] {
+				r := &Term{Op: t.Op, S: SBool, Bound: t.Bound, Args: []*Term{b}, Pat: t.Pat, Alts: t.Alts}
+				variantMu.Lock()
+				if variantTerm[t] {
+					variantTerm[r] = true
+				}
+				variantMu.Unlock()
+				return r
+			}
+		}
+	}
+	return t
 }
